@@ -202,6 +202,77 @@ _check_dominates(2, 2)
 _check_dominates(2, 3)
 
 
+def _check_dominates_history(mutation):
+    @task("C11", "Rect.history[check_dominates, m=2, K=2: construct, use, %s, use]" % mutation)
+    def _t(t):
+        """The answer refers to the bounds displayed NOW: both rectangles are built by the real constructor, the test is used once,
+        the SECOND rectangle (the one whose transformed vertices form the polytope) is changed by the real `%s`, and the test is
+        used again: the second answer must be the exact vertex test over the current bounds.""" % mutation
+        from pyvc.harness import cls_ref
+        from pyvc.values import SObj
+        from pyvc.symexec import find_obj
+        m, K = 2, 2
+        t.mode = "unrolled m=2 K=2, call sequence on one region object"
+        order = t.inp("order", InOrder("o", K, m))
+        O = t.inputs["order"]
+        ins = {n: t.inp(n, InArr(n, (m,))) for n in ("lo1", "up1", "lo2", "up2")}
+        snap = {n: t.inputs[n].snapshot.flat() for n in ins}
+        t.assume(*[V.R(a) <= V.R(b) for a, b in zip(list(snap["lo1"]) + list(snap["lo2"]), list(snap["up1"]) + list(snap["up2"]))])
+
+        def c_ext(ex, st, self_val, args, kwargs, node):
+            pt, poly = L.as_arr(args[0]), L.as_arr(args[1])
+            if len(args) > 2 or kwargs:
+                raise Exception("unexpected invert_extension argument")
+            rows = [[poly.a[i, c] for c in range(poly.shape[1])] for i in range(poly.shape[0])]
+            r = exact_ext(pt.flat(), rows, poly.shape[1])
+            ex.ctx.pybool_ids.add(r.get_id())
+            return [(st, r)]
+        t.contracts[UT + "::is_pt_in_extended_polytope"] = c_ext
+        t.trusted.add("callee-contract: is_pt_in_extended_polytope returns exactly its vertex/segment decision (proved in C11/is_pt_in_extended_polytope[...])")
+        r1, r2 = SObj(cls_ref(CR, "RectangularConfidenceRegion")), SObj(cls_ref(CR, "RectangularConfidenceRegion"))
+        made = [p for p in t.run(CR, "RectangularConfidenceRegion.__init__", [m, ins["lo1"], ins["up1"]], self_val=r1) if p.kind == "return"]
+        if len(made) == 1:
+            made = [p for p in t.run(CR, "RectangularConfidenceRegion.__init__", [m, ins["lo2"], ins["up2"], mutation == "intersect"], self_val=r2, after=made[0]) if p.kind == "return"]
+        if len(made) != 1:
+            t.prove("constructors_return_on_one_path", False)
+            return
+        first = [p for p in t.run(CR, "RectangularConfidenceRegion.check_dominates", [None, order, r1, r2], after=made[0]) if p.kind == "return"]
+        if mutation == "intersect":
+            nl, nu = t.inp("nl", InArr("nl", (m,))), t.inp("nu", InArr("nu", (m,)))
+            t.assume(*[V.R(a) <= V.R(b) for a, b in zip(t.inputs["nl"].snapshot.flat(), t.inputs["nu"].snapshot.flat())])
+            step = lambda p: t.run(CR, "RectangularConfidenceRegion.intersect", [nl, nu], self_val=r2, after=p)
+        else:
+            mean, cov, sc = t.inp("mean", InArr("mu", (m,))), t.inp("cov", InArr("cov", (m, m))), t.inp("scale", InArr("sc", ()))
+            C = t.inputs["cov"].snapshot
+            t.assume(*[V.R(C.a[j, j]) >= 0 for j in range(m)], V.R(t.inputs["scale"].snapshot.flat()[0]) >= 0)
+            step = lambda p: t.run(CR, "RectangularConfidenceRegion.update", [mean, cov, sc], self_val=r2, after=p)
+        second = []
+        for p in first[:2]:
+            for q in step(p):
+                if q.kind == "return":
+                    second += t.run(CR, "RectangularConfidenceRegion.check_dominates", [None, order, r1, r2], after=q)
+        t.prove("history_reaches_the_second_use", z3.BoolVal(len(second) > 0))
+        t.must_fail()
+        t.no_raise(second)
+        W = S.rows_of(O)
+        Wv = lambda v: [S.dot(w, v) for w in W]
+
+        def goal(p):
+            if p.kind != "return" or not V.is_bool(p.value):
+                return False
+            cur = find_obj(p.st, r2.oid)
+            V1 = S.verts(snap["lo1"], snap["up1"])
+            V2 = S.verts(cur.fields["lower"].flat(), cur.fields["upper"].flat())
+            poly = [Wv(v) for v in V2]
+            return V.Bz(p.value) == z3.And(*[exact_ext(Wv(v), poly, K) for v in V1])
+        t.prove_paths("second_answer_is_the_exact_test_over_the_bounds_now_displayed", second, goal)
+    return _t
+
+
+_check_dominates_history("intersect")
+_check_dominates_history("update")
+
+
 def _convex_lift(m):
     @task("C11", "lemma.convex_lift[m=%d]" % m)
     def _t(t):
